@@ -148,6 +148,19 @@ fn elem_walk(d: &AutoCommit, obj: &ObjId, heads: Option<&[ChangeHash]>, enc: Tex
     res
 }
 
+/// (element start positions incl. the end, positions where a block marker with ONE visible op starts) of a text object
+pub fn block_positions(d: &AutoCommit, obj: &ObjId, enc: TextEncoding) -> (Vec<usize>, Vec<usize>) {
+    let mut starts = vec![];
+    let mut blocks = vec![];
+    for e in elem_walk(d, obj, None, enc) {
+        starts.push(e.start);
+        let vals = d.get_all(obj, e.start).unwrap_or_default();
+        if vals.len() == 1 && matches!(vals[0].0, Value::Object(ObjType::Map)) { blocks.push(e.start); }
+    }
+    starts.push(d.length(obj));
+    (starts, blocks)
+}
+
 /// `cmp_lines`: the lines with a stale `marks()` (finding F3) replaced by the marks of the reloaded document,
 /// for comparisons between replicas
 struct ReadOut { lines: Vec<String>, oracle: Vec<String>, cmp_lines: Vec<String> }
@@ -430,6 +443,14 @@ pub fn exec(s: &mut CrdtSession, toks: &[&str], enc: TextEncoding) -> Vec<String
             let d = s.replicas.get_mut(toks[1]).unwrap();
             match d.split_block(parse_exid(toks[2]), toks[3].parse::<usize>().unwrap()) {
                 Ok(id) => vec![format!("ok {}", show_exid(&id))],
+                Err(e) => vec![format!("err {}", rt_err(&e))],
+            }
+        }
+        // crdt.rt.join r obj pos : join_block (removes the block marker at pos)
+        "crdt.rt.join" => {
+            let d = s.replicas.get_mut(toks[1]).unwrap();
+            match d.join_block(parse_exid(toks[2]), toks[3].parse::<usize>().unwrap()) {
+                Ok(()) => vec!["ok".into()],
                 Err(e) => vec![format!("err {}", rt_err(&e))],
             }
         }
